@@ -31,16 +31,16 @@ EXTS = [".c", ".h", ".cpp", ".hpp", ".f90", ".cu", ".inc"]
 
 
 def bounds(tier):
-    return {"cases": 1500 if tier == "quick" else 30000, "cli_cases": 6 if tier == "quick" else 60}
+    return {"cases": 1500 if tier == "quick" else 30000, "cli_cases": 9 if tier == "quick" else 60}
 
 
 def required_cells(tier):
     return ["class-size>=3", "classes>=2", "weak-digest-collision-different-content", "near-duplicate", "excluded-twin",
             "symlinked-twin", "hard-link", "empty-files", "no-duplicates", "non-source-twin", "cli", "same-size-same-mtime-different-content", "link-enumerated-before-target",
-            "class-size>20", "cli:class-size>20"]
+            "class-size>20", "cli:class-size>20", "negation-after-wildcard", "cli:negation-after-wildcard", "two-directory-code-base"]
 
 
-def gen_case(rng, big=False):
+def gen_case(rng, big=False, force_neg=False):
     """big: 22..60 files over 1..2 contents (a vendored header copied many times)."""
     ndirs = rng.randint(0, 3)
     dirs = [""] + [f"d{i}" for i in range(ndirs)] + (["d0/sub"] if ndirs and rng.random() < 0.5 else [])
@@ -64,21 +64,35 @@ def gen_case(rng, big=False):
         nonsrc[os.path.join(rng.choice(dirs), f"n{i}.txt")] = files[t]
     excludes = []
     x = rng.random()
+    if force_neg:
+        x = 0.5
     if x < 0.25 and ndirs:
         excludes = [f"d{rng.randrange(ndirs)}/"]
     elif x < 0.4:
         excludes = ["*" + rng.choice(EXTS)]
+    elif x < 0.6 or force_neg:
+        # order matters: a wildcard followed by the re-inclusion of one file name (the last matching pattern decides)
+        t = rng.choice(names)
+        excludes = ["*" + os.path.splitext(t)[1], "!" + os.path.basename(t)]
+        if rng.random() < 0.3:
+            excludes.append("*" + rng.choice(EXTS))
     return {"files": files, "links": links, "hard": hard, "nonsrc": nonsrc, "excludes": excludes}
 
 
 def excluded(rel, excludes):
+    """gitignore semantics for the three pattern shapes generated here (directory `d/`, `*ext`, `!basename`): the last
+    matching pattern decides; a file below an excluded directory cannot be re-included (never generated together)."""
+    verdict = False
     for p in excludes:
         if p.endswith("/"):
             if rel.startswith(p) or ("/" + p) in ("/" + rel):
-                return True
+                verdict = True
+        elif p.startswith("!"):
+            if os.path.basename(rel) == p[1:]:
+                verdict = False
         elif p.startswith("*") and rel.endswith(p[1:]):
-            return True
-    return False
+            verdict = True
+    return verdict
 
 
 def build(root, case):
@@ -154,6 +168,8 @@ def cells_of(case, classes, by, root):
         cells.add("hard-link")
     if case["nonsrc"]:
         cells.add("non-source-twin")
+    if any(p.startswith("!") for p in case["excludes"]):
+        cells.add("negation-after-wildcard")
     sizes = {}
     for content in by:
         sizes.setdefault(len(content), []).append(content)
@@ -216,6 +232,38 @@ def check_case(ctx, case, root, cls, do_cli=False):
                              "observed": sorted(sorted(os.path.relpath(p, real_root) for p in c) for c in obs)})
         elif len(sizes) != len(classes):
             problems.append({"mode": "weak-hash" if weak else "normal", "kind": "group listed twice", "sizes": sizes})
+    # the code base given as two directories whose names are prefix-related (d1, d1x): only their files count
+    tops = sorted({r.split("/")[0] for r in case["files"] if "/" in r})
+    if tops and not problems and not any(p.endswith("/") for p in case["excludes"]):
+        from codebasin import CodeBase, report
+        d1 = tops[0]
+        twin = os.path.join(real_root, d1 + "x")
+        if not os.path.exists(twin):
+            shutil.copytree(os.path.join(real_root, d1), twin, symlinks=True)
+        sel = [os.path.join(real_root, d1), twin]
+        by2 = {}
+        for d in sel:
+            for dp, dn, fn in os.walk(d):
+                for name in fn:
+                    full = os.path.join(dp, name)
+                    rel = os.path.relpath(full, d)
+                    if os.path.islink(full) or os.path.splitext(name)[1] not in EXTS or excluded(rel, case["excludes"]):
+                        continue
+                    with open(full, "rb") as f:
+                        by2.setdefault(f.read(), set()).add(full)
+        want2 = {frozenset(v) for v in by2.values() if len(v) >= 2}
+        try:
+            filecmp.clear_cache()
+            got2 = {frozenset(str(p) for p in s_) for s_ in report.find_duplicates(CodeBase(*sel, exclude_patterns=list(case["excludes"])))}
+            acc.hook("find_duplicates")
+            cells.add("two-directory-code-base")
+            if got2 != want2:
+                problems.append({"mode": "two-directory code base", "directories": [d1, d1 + "x"],
+                                 "expected": sorted(sorted(os.path.relpath(p, real_root) for p in c) for c in want2),
+                                 "observed": sorted(sorted(os.path.relpath(p, real_root) for p in c) for c in got2)})
+        except Exception as e:
+            problems.append({"mode": "two-directory code base", "observed": f"{type(e).__name__}: {e}"})
+        shutil.rmtree(twin, ignore_errors=True)
     if do_cli and not problems:
         with open(os.path.join(real_root, "analysis.toml"), "w") as f:
             if case["excludes"]:
@@ -228,6 +276,8 @@ def check_case(ctx, case, root, cls, do_cli=False):
         cells.add("cli")
         if any(len(c) > 20 for c in classes):
             cells.add("cli:class-size>20")
+        if any(p.startswith("!") for p in case["excludes"]):
+            cells.add("cli:negation-after-wildcard")
         if rc != 0 or groups != classes or (not classes and "No duplicates found." not in out):
             problems.append({"mode": "cli", "rc": rc, "expected": sorted(map(sorted, classes)),
                              "observed": sorted(map(sorted, groups)), "stderr": err[-300:]})
@@ -252,7 +302,7 @@ def run_shard(ctx):
     root = os.path.join(ctx.scratch, "cb")
     for i in range(b["cases"]):
         # every 3rd command-line case and one case in 50 elsewhere holds a class of more than 20 files
-        case = gen_case(rng, big=(i % 3 == 1 if i < b["cli_cases"] else i % 50 == 7))
+        case = gen_case(rng, big=(i % 3 == 1 if i < b["cli_cases"] else i % 50 == 7), force_neg=(i < b["cli_cases"] and i % 3 == 2))
         if ctx.mine(i):
             check_case(ctx, case, root, "random", do_cli=(i < b["cli_cases"]))
     shutil.rmtree(root, ignore_errors=True)
